@@ -55,20 +55,29 @@ fn event_of(name: &str, open: Option<OpenMessage<Bytes>>) -> Event {
     }
 }
 
-async fn pair() -> (tokio::net::tcp::OwnedReadHalf, TcpStream) {
+/// The write half that belongs to the session's read half: it has to stay open for the duration of a case (dropping it would
+/// shut the socket down) and is closed with the case - forgetting it leaked one descriptor per case and ran a thorough run out
+/// of descriptors.
+struct Pair { rd: Option<tokio::net::tcp::OwnedReadHalf>, _wr: tokio::net::tcp::OwnedWriteHalf, peer: TcpStream }
+
+async fn pair() -> Pair {
     let l = TcpListener::bind("127.0.0.1:0").await.unwrap();
     let addr = l.local_addr().unwrap();
     let c = TcpStream::connect(addr).await.unwrap();
     let (s, _) = l.accept().await.unwrap();
-    let (r, _w) = s.into_split();
-    std::mem::forget(_w);
-    (r, c)
+    // no TIME_WAIT entries: tens of thousands of cases would exhaust the ephemeral ports
+    let _ = s.set_linger(Some(std::time::Duration::ZERO));
+    let _ = c.set_linger(Some(std::time::Duration::ZERO));
+    let (r, w) = s.into_split();
+    Pair { rd: Some(r), _wr: w, peer: c }
 }
 
 fn fam_s(t: AfiSafiType) -> String { let (a, s): (u16, u8) = t.into(); format!("{a}.{s}") }
 
 async fn fsm_case(delay_open: bool, hold: u16, ap: &str, steps: &str) -> String {
-    let (rd, mut peer) = pair().await;
+    let mut pr = pair().await;
+    let rd = pr.rd.take().unwrap();
+    let peer = &mut pr.peer;
     let addpath: Vec<AfiSafiType> = if ap == "-" { vec![] } else {
         ap.split(',').map(|e| { let (a, s) = e.split_once('.').unwrap(); AfiSafiType::from((a.parse::<u16>().unwrap(), s.parse::<u8>().unwrap())) }).collect() };
     let (app_tx, mut app_rx) = mpsc::channel::<Message>(64);
@@ -165,7 +174,9 @@ async fn futures_catch<F: std::future::Future + std::panic::UnwindSafe>(f: F) ->
 }
 
 async fn frm_case(chunks: &str) -> String {
-    let (rd, _peer) = pair().await;
+    let mut pr = pair().await;
+    let rd = pr.rd.take().unwrap();
+    let _peer = &mut pr.peer;
     let mut c = Connection::for_read_half(rd);
     let mut out = vec![];
     'outer: for ch in chunks.split(',') {
